@@ -335,7 +335,7 @@ def run_path(I: Interp, ctx: PathCtx, spec, fi, res: FunctionResult):
             result = result.value
     except PyRaise as e:
         try:
-            _check_exceptional(I, ctx, c, base, e.exc)
+            _check_exceptional(I, ctx, c, base, e.exc, ghost0)
         except PyRaise as e2:
             _spec_failed(ctx, base, e2)
         return
@@ -383,9 +383,12 @@ def _check_normal(I, ctx, c, base, result, ghost0):
         ctx.prove(f"{base}/ghost.{counter}", simp(Z(cur) - Z(ghost0.get(counter, 0)) <= Z(bound)))
 
 
-def _check_exceptional(I, ctx, c, base, exc):
+def _check_exceptional(I, ctx, c, base, exc, ghost0=None):
     if not ctx.feasible():
         raise PathEnd()
+    for counter, bound in c._ghost_bounds_exc:
+        cur = ctx.ghost.get(counter, 0)
+        ctx.prove(f"{base}/ghost.{counter}.on-raise", simp(Z(cur) - Z((ghost0 or {}).get(counter, 0)) <= Z(bound)), detail=f"work done before raising {exc.type_name.split(':')[-1]} exceeds the bound")
     tname = exc.type_name
     short = tname.split(":")[-1]
     ctx.cover(f"exit.raise.{short}")
